@@ -1452,6 +1452,16 @@ def make_builtins(I):
             return frozenset(x)
         if isinstance(x, (list, tuple)) and all(isinstance(e, int) for e in x):
             return frozenset(x)
+        if isinstance(x, (Obj, range, IterVal)) or (isinstance(x, (list, tuple)) and not x):
+            # an iterable object of the repo (e.g. a Scope) / a range / an iterator whose elements turn out to be concrete ints: a concrete set
+            try:
+                items = iterate(I, x.drain() if isinstance(x, IterVal) else x)
+            except Unsupported:
+                items = None
+            if items is not None and all(isinstance(e, int) and not isinstance(e, bool) for e in items):
+                return frozenset(items)
+            if items is not None:
+                x = items
         return SymSet(_as_set_arr(I, x))
 
     def b_minmax(is_min):
